@@ -1267,3 +1267,30 @@ Example application_help_renders_refuted :
   (match render_page 20 ex_plainf ex_long_version_page, render_page 22 ex_plainf ex_long_version_page, render_page 36 ex_plainf ex_long_version_page with
    | Ok _, Ok _, Ok _ => True | _, _, _ => False end).
 Proof. split; [reflexivity|]. split; [vm_compute; reflexivity|]. split; [vm_compute; reflexivity|]. split; [ex_plain|]. vm_compute. repeat split; reflexivity. Qed.
+
+(* ================= the region the check asks the model about ================= *)
+(* With every page the check gets from the model (Model/HelpRegion.v run_C13G) two flags: in_region - the terminal leaves room
+   behind the labels and the layout is good at this width (layout_okb) - and words_fit_page, the part of it that the harness
+   computes as well and compares (room for the labels; every text that holds a "<" has only words that fit its text column).
+   A page in the region renders and fits; the known finding of this property (a help text cut inside its markup) is excused
+   only where words_fit_page is false. *)
+From Clikit Require Import Model.HelpRegion Proofs.HelpRegionLemmas.
+Theorem in_region_renders : forall W f l, f_kind f <> FNull -> in_region (f_styles f) W l = true -> exists s, render_page W f l = Ok s.
+Proof. exact in_region_renders_lemma. Qed.
+Print Assumptions in_region_renders.
+Theorem in_region_fits_plain : forall W f l, f_kind f = FPlain -> one_line_labels l -> in_region (f_styles f) W l = true ->
+  exists s, render_page W f l = Ok s /\ Forall (fun ln => (zlen ln <= W - 1)%Z) (split_on 10%N s).
+Proof. exact in_region_fits_plain_lemma. Qed.
+Print Assumptions in_region_fits_plain.
+Theorem in_region_fits_ansi_visible : forall W f l, is_ansi f -> one_line_labels l -> clean_layout l -> in_region (f_styles f) W l = true ->
+  exists s, render_page W f l = Ok s /\ Forall (fun ln => (zlen (strip_sgr ln) <= W - 1)%Z) (split_on 10%N s).
+Proof. exact in_region_fits_ansi_lemma. Qed.
+Print Assumptions in_region_fits_ansi_visible.
+Theorem in_region_words_fit : forall sty W l, in_region sty W l = true -> words_fit_page sty W l = true.
+Proof. exact in_region_words_fit_lemma. Qed.
+Print Assumptions in_region_words_fit.
+(* the refutation above, in these terms: the layout of page_renders_refuted is outside the region at 18 columns (a word that
+   holds a tag has to be broken) and inside it at 38 *)
+Example ex_cut_layout_region : in_region (f_styles ex_plainf) 18 ex_cut_layout = false /\ words_fit_page (f_styles ex_plainf) 18 ex_cut_layout = false /\
+  in_region (f_styles ex_plainf) 38 ex_cut_layout = true.
+Proof. vm_compute. repeat split; reflexivity. Qed.
